@@ -49,6 +49,9 @@ struct Options {
     uint64_t max_steps = 200000;
     bool spurious_wakeups = false;
     unsigned stay_bias = 160; // choice byte < stay_bias keeps the current thread running
+    //! report a livelock when all runnable threads only re-read unchanged atomics / yield for this many
+    //! consecutive rounds (0 = never; code that polls an atomic while doing thread-local work needs 0)
+    unsigned livelock_rounds = 64;
 };
 
 class Scheduler {
@@ -128,7 +131,7 @@ public:
             // every runnable thread is spinning (re-reading an unchanged location / yielding). If this
             // repeats with no real step in between, no thread can ever change the state: livelock.
             for (auto& t : threads) t->yielded = false;
-            if (++spin_rounds > 64) {
+            if (opt.livelock_rounds && ++spin_rounds > opt.livelock_rounds) {
                 if (deadlock_handler) deadlock_handler();
                 pbt::fatal("livelock", "all runnable threads spin without progress:" + describe());
             }
